@@ -45,11 +45,17 @@ example : Gen.Tables.poolCalls.length ≥ 3 ∧
     callAllowed ⟨"nessai/utils/multiprocessing.py", "batch_evaluate_function", 1, "imap_unordered"⟩ = false ∧
     callAllowed ⟨"nessai/samplers/nestedsampler.py", "NestedSampler.initialise", 1, "map"⟩ = false := by decide
 
-/-- **Values do not depend on the parallelisation settings** (partial: about the values the batch layer hands back,
-given a batch-consistent likelihood and an order-preserving `pool.map`; says nothing about floating-point kernels).
-The settings are confined to the batch layer (table theorem), and for ANY two settings — chunk size, pool
-presence, pool size, vectorised or not — under which the layer returns at all, it returns the same list,
-namely the pointwise values in input order (C10). -/
+/-- **Values do not depend on the parallelisation settings** (partial).
+What is proved: for ANY two settings — chunk size, pool presence, pool size, vectorised or not — under which the batch
+layer returns at all, it returns the same list, namely the pointwise values in input order.  This is C10's
+`batchEval_eq_map` applied to each setting, given a batch-consistent likelihood and an order-preserving `pool.map`;
+it says nothing about floating-point kernels.  The first conjunct merely restates the closed table fact
+`pool_settings_confined` next to it.
+What is NOT a Lean statement: no object here represents "a run of the sampler".  The step from these two facts — the
+settings are read nowhere outside the batch layer, and the batch layer's values do not depend on them — to "two runs
+that differ only in the settings compute the same thing" is an informal composition (it additionally needs that the
+layer has no other effect that differs, which is exactly where the vectorisation probe's random draws come in, see
+below); the digest runs observe it, no theorem states it. -/
 theorem values_independent_of_pool_settings_partial {α β : Type}
     (F : List α → List β) (f : α → β) (pmap : (List α → List β) → List (List α) → List (List β))
     (hF : C10.Consistent F f) (hP : C10.PoolLawful pmap) (xs : List α)
@@ -142,6 +148,30 @@ example : seedingOk [⟨5, "self.seed", "seed", false⟩] [⟨6, "numpy.random.s
     seedingOk [⟨5, "self.seed", "seed", false⟩]
       [⟨6, "numpy.random.seed", .numpyGlobal, "self.seed", true⟩, ⟨7, "torch.manual_seed", .torchGlobal, "self.seed", false⟩] = false := by
   decide
+
+/-! ### seeding happens before the first draw that matters -/
+
+/-- In the constructor chain of a new run (`FlowSampler.__init__` → `NestedSampler.__init__` /
+`ImportanceNestedSampler.__init__` → `BaseNestedSampler.__init__`, expanded in execution order from the source)
+`configure_random_seed` is called exactly once, and the only call before it that can draw random numbers is
+`model.verify_model()`, whose draws are discarded.  Every other drawing call of the constructors — and everything
+`FlowSampler.run` does afterwards — comes after the generators have been seeded.
+Partial: "can draw" is by callee name over a name-based call graph; that `verify_model` leaves nothing behind that
+depends on its draws is read from the source and observed by the digest runs (each starts from a different ambient
+generator state), not proved; the resume branch of `FlowSampler.__init__` is not part of the chain. -/
+theorem seeded_before_first_draw_partial :
+    chainSeedsFirst Gen.Tables.constructorChainStandard = true ∧
+    chainSeedsFirst Gen.Tables.constructorChainImportance = true := by decide
+
+/-- non-vacuity: the chains are long, do contain a pre-seed draw, and the predicate rejects a drawing call moved in
+front of the seeding step, a chain that never seeds, and one that seeds twice -/
+example : Gen.Tables.constructorChainStandard.length ≥ 20 ∧
+    (Gen.Tables.constructorChainStandard.takeWhile (fun s => !s.seeds)).any (·.draws) = true ∧
+    chainSeedsFirst [⟨0, "nessai/samplers/base.py", "BaseNestedSampler.__init__", 90, "self.model.new_point", true, false⟩,
+                     ⟨1, "nessai/samplers/base.py", "BaseNestedSampler.__init__", 109, "self.configure_random_seed", false, true⟩] = false ∧
+    chainSeedsFirst [⟨0, "nessai/samplers/base.py", "BaseNestedSampler.__init__", 88, "model.verify_model", true, false⟩] = false ∧
+    chainSeedsFirst [⟨0, "a", "b", 1, "self.configure_random_seed", false, true⟩,
+                     ⟨1, "a", "b", 2, "self.configure_random_seed", false, true⟩] = false := by decide
 
 /-! ### the one interference: the vectorisation probe -/
 
